@@ -222,6 +222,8 @@ class Target:
         self.inject = dict(cfg.get("inject", {}))          # ordinal of executed tag service -> [status, ext...]
         self.caps = list(cfg.get("caps", []))              # fragment capacities, consumed in order
         self.pages = list(cfg.get("pages", []))            # symbol-list page sizes, consumed in order
+        self.pagefail = dict(cfg.get("pagefail", {}))      # ordinal of symbol-list request -> general status it is refused with
+        self.n_symreq = 0
         self.corrupt = dict(cfg.get("corrupt", {}))        # ordinal of reply frame -> ["cut", n] | ["flip", i, x]
         self.slc = {int(k): {"type": v["type"], "words": list(v["words"])} for k, v in (slc or {}).items()} if slc else None
         self.n_services = 0
@@ -575,6 +577,11 @@ class Target:
         start = p[1][2] if len(p) > 1 else 0
         nattr = u16(data, 0)
         attrs = [u16(data, 2 + 2 * i) for i in range(nattr)]
+        self.n_symreq += 1
+        st = self.pagefail.get(str(self.n_symreq))
+        if st:
+            self.choice["pagefail"] = st
+            return mr_reply(0x55, st)
         if scope and not any(s["kind"] == "program" and s["name"] == "Program:" + scope for s in pr.symbols):
             return mr_reply(0x55, ST_PATH_UNKNOWN)
         todo = sorted([s for s in pr.symbols if s["scope"] == scope and s["iid"] >= start], key=lambda s: s["iid"])
